@@ -128,7 +128,7 @@ def api(ctx, fn: str, *args, **kwargs):
     """soupsieve.<fn>(*args, **kwargs) by interpretation of the package source: ('ok', value) or ('raises', exception name).
     Lists / iterators of nodes are returned as Python lists of the abstract nodes."""
     from .props.sem import strict_lower
-    opts = {'regex_engine': True, 'real_immutable': True, 'max_depth': 250, 'no_const_shortcut': True,
+    opts = {'regex_engine': True, 'real_immutable': True, 'max_depth': 250, 'no_const_shortcut': True, 'max_steps': 5_000_000,
             'persist': ctx._cache.setdefault('e2e-persist-real', {})}
     try:
         r = call_function(ctx, f'__init__.{fn}', list(args), dict(kwargs), {'util.lower': strict_lower}, None, opts)
